@@ -123,6 +123,12 @@ check('C05', 'exploration', "offline trace checker over every solved instant (re
       'possibly-true controls are skipped); when a tank-level control switches its target, the level is within 2 s of tank flow of the threshold.',
       'Margins: 1.524e-4 m + 2 s of tank flow. Non-converging runs are inconclusive.', 'DESIGN.md#C05')
 
+check('C12', 'exploration', 'round-trip oracle on the real InpFile writer/reader: canonical dictionary diff m0 ~ m1 per path with field-precision tolerances, m1 ~ m2 and per-section text comparison of the two INP files, for 10 flow units x 2 INP versions',
+      'G-model restricted to what an INP file can hold (all element kinds and attributes, options of all groups, tags, vertices, categories, sources, '
+      'controls on status/setting/speed with time, clock-time, tank-level and pressure conditions, rules with AND/OR/ELSE/priority) written in each flow '
+      'unit and both versions and read back twice; every differing path is reported with its path class; the statement\'s exclusions are removed from both sides.',
+      'Tolerance 1e-6 relative (+ printed-field resolution); simple-control and source names, element order inside a section are not compared.', 'DESIGN.md#C12')
+
 NOT_YET = 'monitor not built yet in this commit (planned in DESIGN.md section 4)'
 ALL = ['C%02d' % i for i in range(1, 21)]
 
